@@ -613,7 +613,7 @@ def upd_run(chk):
     upd_validate(chk, deep, "deep-nesting", flavours=("plain", "asan") if thorough else ("plain",))
     rnd = ["parse doc=%s src=rnd%d" % (HEX(upd_random_doc(chk.rng)), i) for i in range(6000 if thorough else 700)]
     upd_validate(chk, rnd, "random")
-    chk.cov["rule"] = ("documents = every state of spec/UpdateJson.tla (base document; 27 string variants - every escape, surrogate pairs incl. min/max, raw UTF-8 - "
+    chk.cov["rule"] = ("documents = every state of spec/UpdateJson.tla (base document; 30 string variants - every escape, surrogate pairs incl. min/max, raw UTF-8 - "
                        "in 6 slots; each field missing / number / null / array / object / true; nested extra members; white space; every prefix of the "
                        "base document) + hand-listed truncated tokens + nesting depths 10^2..10^5 (arrays/objects, closed/open, top-level/inside a valid "
                        "document) + seeded random documents (random escapes, shuffled members, mutations); non-trivial = a successful parse (distinct "
